@@ -137,7 +137,7 @@ func (w *schedWorld) spawn(r *Run, tid int, q hReq) *sthread {
 	theSched = w
 	rec := &recorder{}
 	t := &sthread{id: tid, q: q, rec: rec, spawnStep: w.stepNo}
-	t.spy = &spyStore{real: w.rig.inst[0], rec: rec, faults: append([]int{}, q.Faults...)}
+	t.spy = &spyStore{real: w.rig.inst[0], rec: rec, ledger: w.ledger, faults: append([]int{}, q.Faults...)}
 	t.spy.gate = func(string) { t.gate() }
 	t.jwks = &scriptedJWKS{ok: q.KeysOK, rec: nil}
 	t.jwks.gate = func(string) { t.gate(); rec.add("keys") }
